@@ -312,7 +312,7 @@ META["C14"] = {
 
 META["C11"] = {
     "title": "publish/connect and share subscribe the source once and multicast",
-    "rule": "cases = (share | share_threads | publish::<Subject>()+fork()/connect(), source hot Subject behind a tap counter | deferred cold synchronous source behind a subscription counter | interval(5ms) on the virtual clock behind a tap counter, history of length <= 10 quick / <= 18 thorough over subscribe(k) / unsubscribe(k) / source-emit / source-complete / connect / one-period tick, k < 3, one subscription per slot). Checked in lock step against a multicast model: who was subscribed at each emission receives it once, in order; the source is not subscribed before connect(); it is subscribed at most once; after the last subscriber's unsubscribe() returned the tap counter no longer moves on later source events (hot) or one period later (interval); conversely, while a publish() is connected and its source has not ended, the periodic source must keep ticking whoever joins or leaves (source_retired_while_connected). Non-trivial: at least two subscribers overlapped and one left before the source ended; distinct = hash(case). Thread part (scenario share_threads[multi]): 2-3 probes subscribed to clones of one hot.share_threads(), 2-3 threads each running up to 4 of next / unsubscribe(k) / subscribe (never re-joining after the count reached zero) plus an occasional terminal, scheduled at the hooked lock points (random, PCT and preemption-bounded systematic schedules) and then free-running on OS threads with seeded jitter; oracle over call/return stamps: a subscriber whose subscribe() returned before next(v) was called and whose unsubscribe() was not called before it returned receives v exactly once, all subscribers agree on one order, nothing begins on a probe after its unsubscribe() returned, every call returns. Subscribers also join through take(1) (finishing by themselves after one item while keeping their handle) and through start_with([0]).first() (finished before the share itself is subscribed).",
+    "rule": "cases = (share | share_threads | publish::<Subject>()+fork()/connect(), source hot Subject behind a tap counter | deferred cold synchronous source behind a subscription counter | interval(5ms) on the virtual clock behind a tap counter, history of length <= 10 quick / <= 18 thorough over subscribe(k) / unsubscribe(k) / source-emit / source-complete / connect / one-period tick, k < 3, one subscription per slot). Checked in lock step against a multicast model: who was subscribed at each emission receives it once, in order; the source is not subscribed before connect(); it is subscribed at most once; after the last subscriber's unsubscribe() returned the tap counter no longer moves on later source events (hot) or one period later (interval); conversely, while a publish() is connected and its source has not ended, the periodic source must keep ticking whoever joins or leaves (source_retired_while_connected). Non-trivial: at least two subscribers overlapped and one left before the source ended; distinct = hash(case). Thread part (scenario share_threads[multi]): 2-3 probes subscribed to clones of one hot.share_threads(), 2-3 threads each running up to 4 of next / unsubscribe(k) / subscribe (never re-joining after the count reached zero) plus an occasional terminal, scheduled at the hooked lock points (random, PCT and preemption-bounded systematic schedules) and then free-running on OS threads with seeded jitter; oracle over call/return stamps: a subscriber whose subscribe() returned before next(v) was called and whose unsubscribe() was not called before it returned receives v exactly once, all subscribers agree on one order, nothing begins on a probe after its unsubscribe() returned, every call returns. Join-in-callback battery (counter joins_from_inside_a_subscriber_callback, 48 cases): share / share_threads over a cold source that emits 1,2,3 at subscription (staying open, or completing) or over a hot subject; the first subscriber's callback for item i (or for the completion) subscribes 1-2 further probes to clones of the same share - the emission of a synchronous source happens inside the connecting subscription; expected: no panic, no self-deadlock, the first subscriber sees everything, a subscriber that joined during item i sees exactly the items after i, the source is subscribed once. Subscribers also join through take(1) (finishing by themselves after one item while keeping their handle) and through start_with([0]).first() (finished before the share itself is subscribed).",
     "assumptions": COMMON_ASSUME + [
         "whether a share re-connects when somebody joins after its subscriber count dropped to zero is unspecified; such re-joins are generated for hot sources only (counter histories_with_a_rejoin_after_everybody_left) and the re-joined subscriber is owed exactly the emissions the shared source is seen to make (upstream tap), nothing is demanded about terminals after a re-join; thread scenarios never re-join",
         "a cold synchronous source emits during the connecting subscription: only subscribers present at that moment receive those items",
@@ -321,7 +321,7 @@ META["C11"] = {
     "level_text": "Exploration over sampled histories for three source kinds and three multicast spellings, plus sampled and preemption-bounded thread schedules of a multi-subscriber share_threads.",
     "level_note": "Trusted: multicast model in harness/src/props/c11.rs, virtual clock for the interval source.",
     "design_ref": "DESIGN.md §5 C11",
-    "require": {"quick": {"modes_covered": 8, "histories_where_the_last_subscriber_left": 5000, "thread_schedules": 8000, "free_parallel_runs": 1500, "histories_with_a_rejoin_after_everybody_left": 2000}, "thorough": {"modes_covered": 8, "thread_schedules": 300000, "free_parallel_runs": 100000, "histories_with_a_rejoin_after_everybody_left": 50000}},
+    "require": {"quick": {"modes_covered": 8, "joins_from_inside_a_subscriber_callback": 48, "histories_where_the_last_subscriber_left": 5000, "thread_schedules": 8000, "free_parallel_runs": 1500, "histories_with_a_rejoin_after_everybody_left": 2000}, "thorough": {"modes_covered": 8, "joins_from_inside_a_subscriber_callback": 48, "thread_schedules": 300000, "free_parallel_runs": 100000, "histories_with_a_rejoin_after_everybody_left": 50000}},
 }
 
 META["C13"] = {
